@@ -1357,13 +1357,13 @@ pub fn scenarios(prop: &str, tier: &str) -> Vec<Scenario> {
             s.contexts = 1;
             s.writers = vec![vec![fs("a", 1, ""), fs("a", 1, "")]];
             s.remove_ctx = Some(1);
-            s.active.extend(["ctx.unregister", "commit.pre", "commit.post"].iter().map(|x| x.to_string()));
+            s.active.extend(["ctx.unregister", "commit.pre", "commit.sync", "commit.post"].iter().map(|x| x.to_string()));
             v.push(s);
             let mut s = base("unregister-vs-2-appenders");
             s.contexts = 1;
             s.writers = vec![vec![fs("a", 1, "")], vec![fs("b", 1, "ephemeral")]];
             s.remove_ctx = Some(1);
-            s.active.extend(["ctx.unregister", "commit.pre", "commit.post"].iter().map(|x| x.to_string()));
+            s.active.extend(["ctx.unregister", "commit.pre", "commit.sync", "commit.post"].iter().map(|x| x.to_string()));
             v.push(s);
         }
         "C09" => {
